@@ -548,6 +548,29 @@ def run_ecase(case):
     return out
 
 
+def ids_writable():
+    """the environment fact the duplicate-id branch depends on: is `block.ids += offset` allowed"""
+    try:
+        with contextlib.redirect_stdout(io.StringIO()):
+            a = FEMAttribute('probe', np.array([1, 2]), np.array([[1.], [2.]]), silent=True)
+            a.ids += 0
+        return True
+    except ValueError:
+        return False
+
+
+def run_dcase(case):
+    with contextlib.redirect_stdout(io.StringIO()):
+        d = {t: eblock(t, ids, rows) for t, ids, rows in case['blocks']}
+        try:
+            e = FEMElementalAttribute('ELEMENT', d)
+        except Exception as ex:     # noqa
+            return {'id': case['id'], 'raised': True, 'exception': type(ex).__name__}
+        return {'id': case['id'], 'raised': False, 'ids': [int(i) for i in e.ids],
+                'types': [str(t) for t in e.types], 'data': [[int(v) for v in r] for r in e.data],
+                'block_ids': [[str(t), [int(i) for i in bl.ids]] for t, bl in e.items()]}
+
+
 def main():
     spec = json.loads(sys.stdin.read())
     res = {'cases': [], 'ecases': [], 'element_types': [str(t) for t in FEMElementalAttribute.ELEMENT_TYPES]}
@@ -563,6 +586,14 @@ def main():
         except Exception as e:
             import traceback
             res['ecases'].append({'id': c['id'], 'error': traceback.format_exc()[-1500:]})
+    res['dcases'] = []
+    for c in spec.get('dcases', []):
+        try:
+            res['dcases'].append(run_dcase(c))
+        except Exception as e:
+            import traceback
+            res['dcases'].append({'id': c['id'], 'error': traceback.format_exc()[-1500:]})
+    res['ids_writable'] = ids_writable()
     with open(spec['out'], 'w') as f:
         json.dump(res, f)
 
